@@ -79,3 +79,230 @@ Proof.
   exists [mkUtt w_feat None (Some (mkRef false DI64 (R2 [(1, 0, 2); (1, 3, 3)])))]. eexists.
   split; [apply wellformedb_iff; reflexivity|]. repeat split.
 Qed.
+
+(* ================================================================ the pass with info = True *)
+
+Definition ali_upd (acc : iacc) (run : Z * Z) : iacc :=
+  let '(cls, cnt) := run in
+  mkAcc (i_frames acc) (i_nf acc) (Z.max cls (i_maxali acc)) (i_maxref acc) (i_ntok acc)
+        (aset (i_counts acc) cls (aget (i_counts acc) cls 0 + cnt))
+        (aset (i_segs acc) cls (aget (i_segs acc) cls 0 + 1))
+        (i_rcounts acc) (i_rsegs acc).
+
+Definition ref_upd (acc : iacc) (r : row) : iacc :=
+  let '(tok, s, e) := r in
+  let rc := aget (i_rcounts acc) tok 0 in
+  let rc' := if (rc >=? 0) && (e >? s) && (s >=? 0) then rc + e - s else -1 in
+  mkAcc (i_frames acc) (i_nf acc) (i_maxali acc) (Z.max (i_maxref acc) tok) (i_ntok acc + 1)
+        (i_counts acc) (i_segs acc)
+        (aset (i_rcounts acc) tok rc')
+        (aset (i_rsegs acc) tok (aget (i_rsegs acc) tok 0 + 1)).
+
+Lemma ali_info_fold runs : forall acc,
+  ali_info_runs acc runs
+  = if forallb (fun r => 0 <=? fst r) runs then inr (fold_left ali_upd runs acc) else inl ValueErr.
+Proof.
+  induction runs as [|[cls cnt] t IH]; intro acc; cbn [ali_info_runs forallb fold_left fst]; [reflexivity|].
+  destruct (Z.ltb_spec cls 0), (Z.leb_spec 0 cls); try lia; cbn [andb]; [reflexivity|]. apply IH.
+Qed.
+
+Lemma ref_info_fold rows : forall acc,
+  ref_info_rows true acc rows
+  = if forallb (fun r => 0 <=? tok_of r) rows then inr (fold_left ref_upd rows acc) else inl ValueErr.
+Proof.
+  induction rows as [|[[tok s] e] t IH]; intro acc; cbn [ref_info_rows forallb fold_left tok_of fst]; [reflexivity|].
+  destruct (Z.ltb_spec tok 0), (Z.leb_spec 0 tok); try lia; cbn [andb]; [reflexivity|]. apply IH.
+Qed.
+
+Lemma rle_fst (P : Z -> Prop) l : Forall P l -> Forall (fun r => P (fst r)) (rle l).
+Proof.
+  induction 1 as [|x t Hx _ IH]; cbn [rle]; [constructor|].
+  destruct (rle t) as [|[y n] r]; [constructor; [assumption|constructor]|].
+  inversion IH as [|? ? Hy Hr]; subst. destruct (x =? y).
+  - constructor; assumption.
+  - constructor; [assumption|]. constructor; assumption.
+Qed.
+
+Definition utt_classes_nonneg (u : utt) : Prop :=
+  forall a, u_ali u = Some a -> Forall (fun x => 0 <= x) (ali_values a).
+
+Lemma classes_nonneg_utts d : classes_nonneg d <-> Forall utt_classes_nonneg d.
+Proof.
+  unfold classes_nonneg, ali_lists, utt_classes_nonneg. induction d as [|u t IH]; cbn [flat_map].
+  - split; constructor.
+  - destruct (u_ali u) as [a|] eqn:Ea; cbn [app].
+    + split; intro H; inversion H; subst; constructor.
+      * intros a0 E. rewrite Ea in E. inversion E; subst. assumption.
+      * apply IH. assumption.
+      * apply (H2 _ Ea).
+      * apply IH. assumption.
+    + rewrite IH. split; intro H; [constructor; [|assumption]|inversion H; assumption].
+      intros a0 E. rewrite Ea in E. discriminate.
+Qed.
+
+Lemma ali_part_values v fx T a a' : ali_part v fx T a = inr a' ->
+  Forall (fun x => 0 <= x) (ali_values a) -> Forall (fun x => 0 <= x) (ali_values a').
+Proof.
+  destruct v; [|intro H; inversion H; trivial].
+  intro H. apply ali_part_sound in H. destruct H as [-> _].
+  destruct fx as [k|]; [|trivial]. destruct a as [cu dt da]. unfold repair_ali', repair_ali, ali_values. cbn.
+  destruct da as [l|? ?]; [|trivial]. destruct (_ && _); [|trivial]. cbn. intro H.
+  rewrite <- (firstn_skipn T l) in H. apply Forall_app in H. apply H.
+Qed.
+
+Lemma feat_part_shape v fx st f f' T F st1 :
+  feat_part v fx st f = inr (f', T, F, st1) -> f_shape f' = [T; F].
+Proof.
+  unfold feat_part. destruct (v && negb _); [easy|]. destruct (v && f_cuda f && negb (is_some fx)); [easy|].
+  destruct (f_shape f) as [|T0 [|F0 [|? ?]]] eqn:Es; try easy.
+  destruct (s_nf st); [destruct (v && negb _); [easy|]|]; intro H; inversion H; subst;
+    destruct (v && f_cuda f); cbn; first [assumption|reflexivity].
+Qed.
+
+Definition info_upd (acc : iacc) (u : utt) : iacc :=
+  let acc1 := mkAcc (i_frames acc + Z.of_nat (frames (u_feat u))) (Some (nth 1 (f_shape (u_feat u)) 0%nat))
+                    (i_maxali acc) (i_maxref acc) (i_ntok acc) (i_counts acc) (i_segs acc)
+                    (i_rcounts acc) (i_rsegs acc) in
+  let acc2 := match u_ali u with
+              | Some a => fold_left ali_upd (rle (ali_values a)) acc1
+              | None => acc1 end in
+  match u_ref u with
+  | Some r => match ref_rows (r_data r) with Some rows => fold_left ref_upd rows acc2 | None => acc2 end
+  | None => acc2
+  end.
+
+Lemma load_plain r : load_ref cfg_plain r = inr r.
+Proof. apply load_ref_nosyms; [reflexivity|split; reflexivity]. Qed.
+
+(* what ref block + token loop do, for either value of [validate], on the plain data set *)
+Lemma ref_block_written (v : bool) fx T st1 (r r' : ref) (wb : bool) (st2 : vstate) :
+  (if v then ref_part fx T st1 r else inr (r, false, st1)) = inr (r', wb, st2) ->
+  (if wb then Some r' else Some r) = Some r'.
+Proof.
+  destruct v.
+  - intro H. apply ref_part_sound in H. destruct H as (_ & _ & _ & Hwb & _).
+    destruct wb; [reflexivity|]. rewrite (Hwb eq_refl). reflexivity.
+  - intro H; inversion H; subst. reflexivity.
+Qed.
+
+Lemma step_info v fx st acc accx u u' res :
+  step_utt false v cfg_plain fx st accx u = (u', res) -> utt_classes_nonneg u ->
+  step_utt true v cfg_plain fx st acc u
+  = (u', match res with inl e => inl e | inr (st', _) => inr (st', info_upd acc u') end).
+Proof.
+  intros H Hcl. unfold step_utt in *. cbn [c_suppress_alis cfg_plain] in *.
+  assert (Hld : match u_ref u with
+                | Some r => match load_ref cfg_plain r with inl e => inl e | inr lr => inr (Some lr) end
+                | None => inr None end = @inr exn _ (u_ref u)).
+  { destruct (u_ref u); [rewrite load_plain|]; reflexivity. }
+  rewrite Hld in *. clear Hld.
+  destruct (feat_part v fx st (u_feat u)) as [e|[[[f' T] F] st1]] eqn:Ef.
+  { inversion H; subst. reflexivity. }
+  pose proof (feat_part_shape _ _ _ _ _ _ _ _ Ef) as Hsh.
+  assert (Hfr : frames f' = T /\ nth 1 (f_shape f') 0%nat = F) by (unfold frames; rewrite Hsh; split; reflexivity).
+  destruct Hfr as [HfT HfF].
+  destruct (u_ali u) as [a|] eqn:Ea.
+  - destruct (ali_part v fx T a) as [e|a'] eqn:Ea1.
+    { inversion H; subst. reflexivity. }
+    pose proof (ali_part_values _ _ _ _ _ Ea1 (Hcl _ Ea)) as Hv.
+    rewrite ali_info_fold.
+    assert (forallb (fun r => 0 <=? fst r) (rle (ali_values a')) = true) as ->.
+    { apply forallb_forall. intros x Hx. pose proof (rle_fst _ _ Hv) as Hr. rewrite Forall_forall in Hr.
+      specialize (Hr x Hx). cbn in Hr. lia. }
+    destruct (u_ref u) as [r|] eqn:Er.
+    + destruct (if v then ref_part fx T st1 r else inr (r, false, st1)) as [e|[[r' wb] st2]] eqn:Erp.
+      { inversion H; subst. reflexivity. }
+      pose proof (ref_block_written _ _ _ _ _ _ _ _ Erp) as Hw. rewrite Hw in *.
+      destruct (ref_rows (r_data r')) as [rows|] eqn:Err.
+      * rewrite ref_info_noinfo in H. rewrite ref_info_fold.
+        destruct (forallb (fun r0 => 0 <=? tok_of r0) rows); inversion H; subst; [|reflexivity].
+        unfold info_upd. cbn [u_feat u_ali u_ref]. rewrite Err. reflexivity.
+      * inversion H; subst. reflexivity.
+    + inversion H; subst. unfold info_upd. cbn [u_feat u_ali u_ref]. reflexivity.
+  - destruct (u_ref u) as [r|] eqn:Er.
+    + destruct (if v then ref_part fx T st1 r else inr (r, false, st1)) as [e|[[r' wb] st2]] eqn:Erp.
+      { inversion H; subst. reflexivity. }
+      pose proof (ref_block_written _ _ _ _ _ _ _ _ Erp) as Hw. rewrite Hw in *.
+      destruct (ref_rows (r_data r')) as [rows|] eqn:Err.
+      * rewrite ref_info_noinfo in H. rewrite ref_info_fold.
+        destruct (forallb (fun r0 => 0 <=? tok_of r0) rows); inversion H; subst; [|reflexivity].
+        unfold info_upd. cbn [u_feat u_ali u_ref]. rewrite Err. reflexivity.
+      * inversion H; subst. reflexivity.
+    + inversion H; subst. unfold info_upd. cbn [u_feat u_ali u_ref]. reflexivity.
+Qed.
+
+Lemma run_info v fx : forall d st acc accx d' res,
+  run_pass false v cfg_plain fx st accx d = (d', res) -> Forall utt_classes_nonneg d ->
+  run_pass true v cfg_plain fx st acc d
+  = (d', match res with inl e => inl e | inr _ => inr (fold_left info_upd d' acc) end).
+Proof.
+  induction d as [|u t IH]; intros st acc accx d' res; cbn [run_pass].
+  - intros H _. inversion H; subst. reflexivity.
+  - intros H Hcl. inversion Hcl; subst.
+    destruct (step_utt false v cfg_plain fx st accx u) as [u' r0] eqn:Es.
+    rewrite (step_info v fx st acc accx u u' r0 Es H2).
+    destruct r0 as [e|[st1 acc1]].
+    + inversion H; subst. reflexivity.
+    + destruct (run_pass false v cfg_plain fx st1 acc1 t) as [t' r1] eqn:Er.
+      inversion H; subst. rewrite (IH st1 (info_upd acc u') acc1 t' res Er H3). reflexivity.
+Qed.
+
+Definition fixarg_of (fx : option Z) : fixarg := match fx with Some k => FInt k | None => FNone end.
+
+(* --strict / --fix N (N <> 0): same files afterwards and same raise/return as
+   validate_spect_data_set on a plain data set; the report is the fold of [info_upd] over the result *)
+Lemma cli_like_validate strict fx d :
+  cli_validates strict fx = true -> classes_nonneg d ->
+  cli_info strict fx d
+  = (fst (validate cfg_plain (fixarg_of fx) d),
+     match snd (validate cfg_plain (fixarg_of fx) d) with
+     | Some e => inl e
+     | None => inr (finish (length d) (fold_left info_upd (fst (validate cfg_plain (fixarg_of fx) d)) acc0))
+     end).
+Proof.
+  intros Hv Hcl. unfold cli_info, validate. rewrite Hv.
+  assert (norm_fix (fixarg_of fx) = fx) as -> by (destruct fx; reflexivity).
+  destruct (run_pass false true cfg_plain fx st0 acc0 d) as [d' res] eqn:E.
+  rewrite (run_info true fx d st0 acc0 acc0 d' res E (proj1 (classes_nonneg_utts d) Hcl)).
+  destruct res; reflexivity.
+Qed.
+
+(* no flag, or --fix 0: nothing is validated, nothing is written *)
+Lemma step_unvalidated_unchanged info c fx st acc u : fst (step_utt info false c fx st acc u) = u.
+Proof.
+  unfold step_utt.
+  destruct (match u_ref u with
+            | Some r => match load_ref c r with inl e => inl e | inr lr => inr (Some lr) end
+            | None => inr None end) as [e|lref]; [reflexivity|].
+  destruct (c_suppress_alis c); [reflexivity|].
+  destruct (feat_part false fx st (u_feat u)) as [e|[[[f' T] F] st1]] eqn:Ef; [reflexivity|].
+  assert (f' = u_feat u) as ->.
+  { unfold feat_part in Ef. cbn [andb] in Ef. destruct (f_shape (u_feat u)) as [|? [|? [|? ?]]]; try easy.
+    destruct (s_nf st); inversion Ef; reflexivity. }
+  cbn [ali_part negb].
+  destruct (u_ali u) as [a|] eqn:Ea; cbn [ali_part negb].
+  - destruct info.
+    + destruct (ali_info_runs _ _) as [e|acc2]; [cbn; rewrite <- Ea; apply utt_eta|].
+      destruct lref as [lr|]; [|cbn; rewrite <- Ea; apply utt_eta].
+      destruct (ref_rows (r_data lr)); [destruct (ref_info_rows _ _ _)|]; cbn; rewrite <- Ea; apply utt_eta.
+    + destruct lref as [lr|]; [|cbn; rewrite <- Ea; apply utt_eta].
+      destruct (ref_rows (r_data lr)); [destruct (ref_info_rows _ _ _)|]; cbn; rewrite <- Ea; apply utt_eta.
+  - destruct lref as [lr|]; [|cbn; rewrite <- Ea; apply utt_eta].
+    destruct (ref_rows (r_data lr)); [destruct (ref_info_rows _ _ _)|]; cbn; rewrite <- Ea; apply utt_eta.
+Qed.
+
+Lemma run_unvalidated_unchanged info c fx : forall d st acc, fst (run_pass info false c fx st acc d) = d.
+Proof.
+  induction d as [|u t IH]; intros st acc; cbn [run_pass]; [reflexivity|].
+  pose proof (step_unvalidated_unchanged info c fx st acc u) as Hs.
+  destruct (step_utt info false c fx st acc u) as [u' [e|[st1 acc1]]]; cbn in Hs; subst u'; [reflexivity|].
+  specialize (IH st1 acc1). destruct (run_pass info false c fx st1 acc1 t) as [t' r]. cbn in *. subst. reflexivity.
+Qed.
+
+Lemma cli_unvalidated_never_writes strict fx d :
+  cli_validates strict fx = false -> fst (cli_info strict fx d) = d.
+Proof.
+  intro Hv. unfold cli_info. rewrite Hv.
+  pose proof (run_unvalidated_unchanged true cfg_plain fx d st0 acc0) as H.
+  destruct (run_pass true false cfg_plain fx st0 acc0 d). cbn in *. assumption.
+Qed.
